@@ -100,9 +100,20 @@ static std::vector<std::string> c12Cases(bool thorough) {
     int step = thorough ? 1 : 8;
     for (int i = 0; i < 2048; i += 18 * step) v.push_back("fevent:" + std::to_string(i));
     for (int i = 0; i < 2048; i += step) v.push_back("frate:" + std::to_string(i));
+    // every pattern file again under other LAYOUTS of the same content (leading zero bytes shift every absolute offset, a later parameter block, another record order)
+    std::vector<std::string> lay = thorough ? std::vector<std::string>{"zeros=7", "pblock=3;order=groupsReversed", "zeros=1", "zeros=512", "prologue=0000", "order=paramsFirst;ids=swapped", "padblocks=1", "zeros=3;pblock=3"} : std::vector<std::string>{"zeros=7", "pblock=3;order=groupsReversed"};
+    size_t n = v.size(); for (auto& ly : lay) for (size_t i = 0; i < n; ++i) v.push_back(v[i] + "@" + ly);
     return v;
 }
-static bool c12Content(const std::string& cs, gen::Content& c, gen::Layout& l) {
+static bool c12ContentBase(const std::string& cs, gen::Content& c, gen::Layout& l);
+static bool c12Content(const std::string& full, gen::Content& c, gen::Layout& l) {
+    size_t at = full.find('@'); if (!c12ContentBase(full.substr(0, at), c, l)) return false;
+    if (at != std::string::npos) { gen::Choice ch = gen::parseChoice(full.substr(at + 1)); for (auto& kv : ch) {
+        if (kv.first == "zeros") l.zeros = atoi(kv.second.c_str()); else if (kv.first == "pblock") l.paramBlock = atoi(kv.second.c_str()); else if (kv.first == "order") l.order = kv.second; else if (kv.first == "ids") l.ids = kv.second;
+        else if (kv.first == "prologue") l.zeroPrologue = kv.second == "0000"; else if (kv.first == "padblocks") c.padBlocks = atoi(kv.second.c_str()); else return false; } }
+    return true;
+}
+static bool c12ContentBase(const std::string& cs, gen::Content& c, gen::Layout& l) {
     c = gen::Content(); l = gen::Layout(); c.extra = "custom"; c.nPoints = 1; c.nChans = 1; c.spf = 1; c.nFrames = 1; c.pointRate = 100; c.analogRate = 100;
     std::string kind = cs.substr(0, cs.find(':')); std::string arg = cs.find(':') == std::string::npos ? "" : cs.substr(cs.find(':') + 1);
     if (kind == "bytes") { std::vector<int> v; for (int i = 0; i < 256; ++i) v.push_back(i); c.customParams.push_back(gen::GParam::bytes("ALLB", {16, 16}, v)); return true; }
